@@ -18,7 +18,9 @@
 //	              !kicked -> must return true, tx+=tx, rx+=rx
 //	snap(clear):  must return exactly (tx,rx) [absent == (0,0)]; clear resets both to 0
 //	kick:         sets the flag (a set: kicking twice before the next report refuses one report)
-//	onl(on):      online += 1 / -= 1
+//	onl(on):      online += 1 / -= 1; NEVER touches the kick flag: the kick belongs to the user's next
+//	              report, however many of the user's connections come and go in between (also 1 -> 0 -> 1,
+//	              and a kick issued while the user is not online at all)
 //	online():     must return exactly online [absent == 0]
 //
 // 2-minute cap per history; a timeout is "Unknown" = inconclusive, never a violation.
@@ -143,6 +145,14 @@ var model = porcupine.Model{
 	Step: func(st, in, out interface{}) (bool, interface{}) {
 		ok, ns := step(st.(state), in.(input), out.(output))
 		return ok, ns
+	},
+	Hash: func(st interface{}) uint64 {
+		s := st.(state)
+		h := s.Tx*0x9E3779B97F4A7C15 ^ s.Rx*0xC2B2AE3D27D4EB4F ^ uint64(s.Online)*0x165667B19E3779F9
+		if s.Kicked {
+			h ^= 0xD6E8FEB86659FD93
+		}
+		return h
 	},
 	DescribeOperation: func(in, out interface{}) string {
 		return fmt.Sprintf("%+v -> %+v", in, out)
